@@ -22,8 +22,78 @@ def divJson (r : Option Triplets) : Json :=
   | none => err "ValueError"
   | some tr => ofList ofTrip tr
 
+def jBools (j : Json) : R (List Bool) := jList jBool j
+def fBools (j : Json) (k : String) : R (List Bool) := field j k >>= jBools
+def ofBools (l : List Bool) : Json := ofList Json.bool l
+
+def jTags (j : Json) : R Tags :=
+  jList (fun kv => do
+    let k ← fStr kv "k"
+    let v ← fBools kv "v"
+    pure (k, v)) j
+
+def ofTags (tg : Tags) : Json := ofList (fun kv => obj [("k", Json.str kv.1), ("v", ofBools kv.2)]) tg
+
+def ofOptTags (r : Option Tags) : Json :=
+  match r with
+  | none => err "KeyError"
+  | some tg => ofTags tg
+
+def readTopo (j : Json) : R Topo := do
+  let dim ← fNat j "dim"
+  let nf ← fNat j "nf"
+  let nc ← fNat j "nc"
+  let nn ← fNat j "nn"
+  let cp ← fNats j "cf_indptr"
+  let ci ← fNats j "cf_indices"
+  let cd ← fInts j "cf_data"
+  let fp ← fNats j "fn_indptr"
+  let fi ← fNats j "fn_indices"
+  if cp.length != nc + 1 then throw "cf_indptr length" else
+  if fp.length != nf + 1 then throw "fn_indptr length" else
+  if ci.length != cd.length then throw "cf data length" else
+  let t : Topo := { dim := dim, nf := nf, nc := nc, nn := nn, cf := fromCsc cp ci cd,
+                    fn := faceNodesFromCsc fp fi }
+  if t.cf.length != ci.length then throw "cf_indptr does not cover the entries" else
+  pure t
+
+def ofInc (e : Inc) : Json := ofInts [(e.face : Int), (e.cell : Int), e.sign]
+
+/-- tag arithmetic on the tags of the grid and on a free-standing dictionary -/
+def runTags (j : Json) : R Json := do
+  let t ← readTopo j
+  let tg ← field j "tags" >>= jTags
+  let fresh ← fBool j "fresh"
+  let d ← field j "dict" >>= jTags
+  let nw ← field j "new" >>= jTags
+  let idx ← fNats j "idx"
+  let keys ← field j "keys" >>= jList jStr
+  let app ← field j "app" >>= jTags
+  let nodeUpd := updateBoundaryNodeTag t tg
+  pure (obj [
+    ("all_face", ofOpt ofNats ((allFaceTags tg).map indicesOf)),
+    ("all_node", ofOpt ofNats ((allNodeTags tg).map indicesOf)),
+    ("node_upd", ofOptTags (nodeUpd.map (fun r => r.filter (fun kv => standardNodeTags.contains kv.1)))),
+    ("dom_nodes", ofOpt ofBools ((tg.get "domain_boundary_faces").map (nodeTagFromFaces t))),
+    ("fresh", if fresh then ofOptTags (freshTags t) else Json.null),
+    ("add", ofTags (addTags d nw)),
+    ("extract", ofOptTags (extractTags d idx keys)),
+    ("append", ofOptTags (appendTags d app))])
+
+def runExtract (j : Json) : R Json := do
+  let t ← readTopo j
+  let cells ← fNats j "cells"
+  let r := extractSubgrid t cells
+  pure (obj [
+    ("nf", ofNat r.1.nf), ("nc", ofNat r.1.nc), ("nn", ofNat r.1.nn),
+    ("cf", ofList ofInc r.1.cf), ("fn", ofList ofNats r.1.fn),
+    ("faces", ofNats r.2.1), ("nodes", ofNats r.2.2),
+    ("wf", Json.bool (decide (WF r.1)))])
+
 def run (j : Json) : R Json := do
   let op ← fStr j "op"
+  if op == "tags" then runTags j else
+  if op == "extract" then runExtract j else
   if op != "grid" then throw s!"unknown op {op}" else
   let dim ← fNat j "dim"
   let nf ← fNat j "nf"
@@ -38,6 +108,7 @@ def run (j : Json) : R Json := do
   let tip ← fNats j "tip"
   let sc ← fNatss j "sc"
   let dv ← fInts j "div"
+  let flux ← fRatss j "flux"
   if cp.length != nc + 1 then throw "cf_indptr length" else
   if fp.length != nf + 1 then throw "fn_indptr length" else
   if ci.length != cd.length then throw "cf data length" else
@@ -56,6 +127,11 @@ def run (j : Json) : R Json := do
     ("sc", ofList scJson (sc.map (signsAndCells t))),
     ("cn", ofList ofNats ((List.range nc).map (cellNodes t))),
     ("ncn", ofNats ((List.range nc).map (numCellNodes t))),
-    ("div", ofList divJson (dv.map (divergence t)))])
+    ("div", ofList divJson (dv.map (divergence t))),
+    ("divu", ofList (fun (p : Int × List Rat) =>
+        match divergence t p.1 with
+        | none => err "ValueError"
+        | some tr => ofRats ((List.range (nc * p.1.toNat)).map (applyTrip tr (fun i => p.2.getD i 0))))
+      (dv.zip flux))])
 
 def main : IO Unit := runPure run
